@@ -12,6 +12,7 @@ SPEC = {
                 quick=[("G(0..5) x U", [["--n", n, "--alpha", "U"] for n in range(0, 6)]),
                        ("G(0..5) x A2", [["--n", n, "--alpha", "A2"] for n in range(0, 6)]),
                        ("G(4) x A3", [["--n", 4, "--alpha", "A3"]]), ("G(5) x A3", [["--n", 5, "--alpha", "A3"]]),
+                       ("reversed / alternating edge orientation: G(4) x A3, G(5) x A2", [["--n", 4, "--alpha", "A3", "--orient", 1], ["--n", 5, "--alpha", "A2", "--orient", 1], ["--n", 5, "--alpha", "A2", "--orient", 2]]),
                        ("blob grammar K=3,T=2 x patterns M2, M3", [["--grammar", "blobs:3:2", "--alpha", "M2"], ["--grammar", "blobs:3:2", "--alpha", "M3"]]),
                        ("tie-heavy families x U", [["--families", FAMS_TIES, "--alpha", "U"]])],
                 thorough=[("G(6) x U", [["--n", 6, "--alpha", "U"]]),
@@ -22,7 +23,7 @@ SPEC = {
     "C13": dict(comp="fvs",
                 rule="every labelled graph of G(n) (no weights involved) and named families; oracle = outputs are distinct vertices, graph minus output is acyclic "
                      "(union-find), nothing emitted for forests. distinct_nontrivial = graphs containing a cycle",
-                quick=[("G(0..6)", [["--n", n] for n in range(0, 7)]), ("families", [["--families", FAMS_TIES + ",grid:6:6,cube:5,K:9,wheel:12"]]),
+                quick=[("G(0..6)", [["--n", n] for n in range(0, 7)]), ("G(6) reversed edge orientation", [["--n", 6, "--orient", 1]]), ("families", [["--families", FAMS_TIES + ",grid:6:6,cube:5,K:9,wheel:12"]]),
                        ("blob grammar K=3,T=3 (hubs with pendant pieces, up to 30 vertices)", [["--grammar", "blobs:3:3"]])],
                 thorough=[("G(7)", [["--n", 7]]), ("G(8) with at most 11 edges", [["--n", 8, "--max-m", 11]]), ("blob grammar K=4,T=3", [["--grammar", "blobs:4:3"]])]),
     "C14": dict(comp="collections",
@@ -32,6 +33,7 @@ SPEC = {
                      "distinct_nontrivial = distinct (graph, weighting) with cycle space dimension >= 1",
                 quick=[("G(0..4) x A3", [["--n", n, "--alpha", "A3"] for n in range(0, 5)]), ("G(5) x A2", [["--n", 5, "--alpha", "A2"]]),
                        ("G(5) x U", [["--n", 5, "--alpha", "U"]]), ("G(5) x A3", [["--n", 5, "--alpha", "A3"]]),
+                       ("reversed / alternating edge orientation: G(4) x A3, G(5) x A2", [["--n", 4, "--alpha", "A3", "--orient", 1], ["--n", 5, "--alpha", "A2", "--orient", 1], ["--n", 5, "--alpha", "A2", "--orient", 2]]),
                        ("blob grammar K=3,T=2 x patterns M2, M3", [["--grammar", "blobs:3:2", "--alpha", "M2"], ["--grammar", "blobs:3:2", "--alpha", "M3"]]),
                        ("tie-heavy families x U", [["--families", "grid:3:3,grid:3:4,cube:3,Kb:3:3,petersen,wheel:6,prism:5,torus:3:3,K:6", "--alpha", "U"]])],
                 thorough=[ ("G(6) x U", [["--n", 6, "--alpha", "U"]]), ("G(5) x D", [["--n", 5, "--alpha", "D"]]),
@@ -42,7 +44,7 @@ SPEC = {
                 rule="every labelled graph of G(n), and for n <= 4 (thorough: n <= 5 with m <= 7) every edge insertion order; each index is judged as constructed, copy-constructed, assigned over another graph's index and self-assigned; oracle = mutually inverse bijections onto 0..m-1, "
                      "component count and dimension by union-find, is_on_forest iff index >= dimension, forest edges acyclic and n-c many. "
                      "distinct_nontrivial = distinct (graph, insertion order) with at least one edge",
-                quick=[("G(0..6)", [["--n", n] for n in range(0, 7)]), ("G(0..4) x all edge insertion orders", [["--n", n, "--edge-orders"] for n in range(0, 5)]),
+                quick=[("G(0..6)", [["--n", n] for n in range(0, 7)]), ("G(6) reversed / alternating edge orientation", [["--n", 6, "--orient", 1], ["--n", 6, "--orient", 2]]), ("G(0..4) x all edge insertion orders", [["--n", n, "--edge-orders"] for n in range(0, 5)]),
                        ("families", [["--families", FAMS_TIES + ",grid:6:6,cube:5,K:9"]]), ("blob grammar K=3,T=3 (many components, isolated vertices)", [["--grammar", "blobs:3:3"]])],
                 thorough=[("G(7)", [["--n", 7]]), ("G(5), m <= 7, all edge insertion orders", [["--n", 5, "--edge-orders", "--max-m", 7]])]),
 }
